@@ -231,6 +231,17 @@ fn mutate(p: &mut Party, foreign_dids: &[String], round: usize) {
             format!("custom{round}x{i}"),
             serde_json::json!({"about": own, "n": ctx::choose(1000)}),
           );
+          // numbers with a fraction: whatever f64 the document holds must come back as that f64
+          if ctx::choose(3) == 0 {
+            let k = 1 + ctx::choose(2000) as u32;
+            let f = match ctx::choose(3) {
+              0 => k as f64 / 7.0,
+              1 => k as f64 * 0.01,
+              _ => (k as f32 * 0.03_f32) as f64,
+            };
+            doc.properties_mut_unchecked().insert(format!("rate{round}x{i}"), Value::from(f));
+            ctx::stat("probe.float_property");
+          }
           doc
             .metadata
             .properties_mut()
